@@ -104,7 +104,12 @@ func servicePayload(schemes []string) []byte {
 	return b
 }
 
-var malformed = [][]byte{[]byte(`{"weights": `), []byte(`not json`), []byte(`{"weights":{"http://[::1":1}}`), []byte(`[]`), []byte(``)}
+// malformed announcements: broken JSON text, and well-formed JSON text that is not an announcement (a member of the wrong
+// JSON type next to decodable host weights): all of them are ignored as a whole
+var malformed = [][]byte{[]byte(`{"weights": `), []byte(`not json`), []byte(`{"weights":{"http://[::1":1}}`), []byte(`[]`), []byte(``),
+	[]byte(`{"weights":{"https://h8:443":1,"https://h9:443":"1"}}`), []byte(`{"clusterName":5,"weights":{"https://h9:443":1}}`),
+	[]byte(`{"weights":{"https://h9:443":2},"uriSpecificProperties":{"https://h9:443":{"com.linkedin.app.name":7}}}`),
+	[]byte(`{"weights":{"https://h9:443":2},"partitionDesc":{"https://h9:443":{"0":{"weight":"1"}}}}`)}
 var weightless = [][]byte{[]byte(`{}`), []byte(`{"weights":{}}`),
 	[]byte(`{"weights":{},"partitionDesc":{"http://h9:1":{"0":{"weight":1}}}}`), []byte(`{"clusterName":"C"}`)}
 
